@@ -1,6 +1,7 @@
 package c03lib
 
 import (
+	"runtime"
 	"errors"
 	"io"
 	"net"
@@ -90,10 +91,33 @@ type PacketScript struct {
 	MaxBuf  int // largest buffer a reader offered
 	MinBuf  int
 	ReadCnt int
+	// Depths: call-stack depth at every read of the socket. A receive loop that skips invalid
+	// datagrams must do so at constant stack depth: frames that pile up per skipped datagram end in
+	// a fatal stack overflow under a flood of junk (seeded change C03-7: retry by recursion).
+	Depths []int
+}
+
+// StackGrows reports whether, among the socket reads with index >= from, at least three
+// consecutive ones were each made from a deeper stack than the one before.
+func (c *PacketScript) StackGrows(from int) (bool, []int) {
+	run := 1
+	for i := from + 1; i < len(c.Depths); i++ {
+		if c.Depths[i] > c.Depths[i-1] {
+			run++
+			if run >= 3 {
+				return true, c.Depths[from:]
+			}
+		} else {
+			run = 1
+		}
+	}
+	return false, nil
 }
 
 func (c *PacketScript) ReadFrom(p []byte) (int, net.Addr, error) {
 	c.ReadCnt++
+	var pcs [256]uintptr
+	c.Depths = append(c.Depths, runtime.Callers(0, pcs[:]))
 	if len(p) > c.MaxBuf {
 		c.MaxBuf = len(p)
 	}
